@@ -76,6 +76,8 @@ def write_job(args):
         return witness_job(None)
     if args[0] == "rows":
         return row_job(args[1:])
+    if args[0] == "cast":
+        return dict(cast_job(args), kind="cast", hist={})
     seed, n_cases, depth, alias = args
     from amaranth.hdl import Signal
     from .. import gen_expr
@@ -172,6 +174,352 @@ def row_job(args):
     return {"seed": seed, "cases": cases, "hist": hist}
 
 
+# ------------------------------------------------------------------------------------------------
+# reads of value-castables whose shape is a shape-castable (signed ones in particular): `ctx.get` lifts the value
+# the circuit holds with the shape's `from_bits`; `ctx.set` of a lifted value followed by `ctx.get` returns it
+
+_CAST_TYPES = None
+
+
+def _cast_types():
+    """a small user-defined shape-castable: signed fixed-point numbers. `from_bits` takes the number the circuit holds
+    (negative for a set sign bit, as documented for ShapeCastable.from_bits) and returns an exact Fraction"""
+    global _CAST_TYPES
+    if _CAST_TYPES is None:
+        from fractions import Fraction
+        from amaranth.hdl import ShapeCastable, ValueCastable, Value, Const, Format, signed
+
+        class Q(ShapeCastable):
+            def __init__(self, width, frac):
+                self.width, self.frac = width, frac
+
+            def as_shape(self):
+                return signed(self.width)
+
+            def __call__(self, target):
+                return QValue(self, target)
+
+            def const(self, init):
+                if isinstance(init, QValue):
+                    return init
+                return QValue(self, Const(int(round((init or 0) * (1 << self.frac))), signed(self.width)))
+
+            def from_bits(self, raw):
+                return Fraction(raw, 1 << self.frac)
+
+            def format(self, value, spec):
+                return Format("{}", Value.cast(value))
+
+            def __repr__(self):
+                return f"Q({self.width}, {self.frac})"
+
+        class QValue(ValueCastable):
+            def __init__(self, shape, target):
+                self._shape, self._target = shape, Value.cast(target)
+
+            def shape(self):
+                return self._shape
+
+            def as_value(self):
+                return self._target
+
+        _CAST_TYPES = (Q, QValue)
+    return _CAST_TYPES
+
+
+def cast_describe(x):
+    import enum as py_enum
+    from fractions import Fraction
+    from amaranth.lib import data
+    if isinstance(x, py_enum.Enum):
+        return f"m{x.value}"
+    if isinstance(x, data.Const):
+        return f"c{x.as_bits()}"
+    if isinstance(x, bool):
+        return f"i{int(x)}"
+    if isinstance(x, int):
+        return f"i{x}"
+    if isinstance(x, Fraction):
+        return f"q{x.numerator}/{x.denominator}"
+    return f"?{type(x).__name__}"
+
+
+def cast_lift(descr, v):
+    """the shape's from_bits applied to the number v the circuit holds, on the abstract description of the shape"""
+    from fractions import Fraction
+    if descr[0] == "int":
+        return f"i{v}"
+    if descr[0] == "enum":
+        return f"m{v}" if v in descr[1] else "err:ValueError"
+    if descr[0] == "q":
+        f = Fraction(v, 1 << descr[1])
+        return f"q{f.numerator}/{f.denominator}"
+    return f"c{v & ((1 << descr[1]) - 1)}"           # a layout: the data.Const of the bit pattern
+
+
+def cast_job(args):
+    """signals, struct fields and memory rows shaped by a signed enumeration / a user fixed-point type / signed plain
+    shapes; in every step the state is set through the plain underlying values, optionally one write goes through a
+    value-castable (member, Fraction, int), then every value-castable is read with ctx.get"""
+    _tag, seed, n_cases = args
+    import warnings
+    warnings.simplefilter("ignore")
+    from fractions import Fraction
+    from amaranth.hdl import Signal, Module, Value, Shape, signed, unsigned
+    from amaranth.lib import data, enum as aenum
+    from amaranth.lib.memory import Memory
+    from amaranth.sim import Simulator
+    Q, _QV = _cast_types()
+    rng = random.Random(seed)
+    cases = []
+
+    def mk_enum(name, w, sg, want_negative):
+        lo, hi = (-(1 << (w - 1)), 1 << (w - 1)) if sg else (0, 1 << w)
+        dom = list(range(lo, hi))
+        vals = rng.sample(dom, rng.randint(1, min(4, len(dom))))
+        if want_negative and sg and not any(v < 0 for v in vals):
+            vals[0] = rng.randint(lo, -1)
+        vals = sorted(set(vals))
+        ns = aenum.EnumType.__prepare__(name, (aenum.Enum,))
+        for i, v in enumerate(vals):
+            ns[f"M{i}"] = v
+        return aenum.EnumType(name, (aenum.Enum,), ns, shape=Shape(w, sg)), tuple(vals)
+
+    def rand_in(shape, descr):
+        w, sg = shape.width, shape.signed
+        lo, hi = (-(1 << (w - 1)), (1 << (w - 1)) - 1) if sg and w else (0, (1 << w) - 1)
+        if descr[0] == "enum" and rng.random() < 0.88:
+            return rng.choice(descr[1])
+        r = rng.random()
+        if sg and r < 0.55:
+            return rng.randint(lo, -1)                 # negative values are the point of this stream
+        if r < 0.7:
+            return rng.choice([lo, hi, -1 if sg else hi, 0])
+        return rng.randint(lo, hi)
+
+    for _ in range(n_cases):
+        Lv, lv_vals = mk_enum("Lv", rng.randint(1, 5), True, rng.random() < 0.9)
+        Md, md_vals = mk_enum("Md", rng.randint(1, 3), False, False)
+        qw = rng.randint(2, 7)
+        Q1 = Q(qw, rng.randint(0, qw))
+        qw2 = rng.randint(1, 6)
+        Q2 = Q(qw2, rng.randint(0, qw2 + 1))
+        fkinds = {"lv": (Lv, ("enum", lv_vals), "signed-enum"), "md": (Md, ("enum", md_vals), "unsigned-enum"),
+                  "g": (Q2, ("q", Q2.frac), "fixed-point"), "n": (signed(rng.randint(1, 5)), ("int",), "signed-plain"),
+                  "u": (unsigned(rng.randint(0, 3)), ("int",), "unsigned-plain")}
+        names = [n for n in fkinds if rng.random() < 0.7]
+        if not {"lv", "g"} & set(names):
+            names.append(rng.choice(["lv", "g"]))
+        rng.shuffle(names)
+        lay = data.StructLayout({n: fkinds[n][0] for n in names})
+        row_choice = rng.choice(["lv", "lv", "q", "plain", "struct", "struct"])
+        if row_choice == "lv" and 0 not in lv_vals:
+            row_choice = "struct"          # MemoryData.Init evaluates shape.const(None), which an enumeration without 0 refuses
+        rshape, rdescr, rkind = {"lv": (Lv, ("enum", lv_vals), "signed-enum"), "q": (Q1, ("q", Q1.frac), "fixed-point"),
+                                 "plain": (signed(rng.randint(2, 6)), ("int",), "signed-plain"),
+                                 "struct": (lay, ("layout", lay.size), "layout")}[row_choice]
+        mdepth = rng.randint(1, 3)
+        m = Module()
+        lv = Signal(Lv, name="lv", init=Lv(rng.choice(lv_vals)))
+        fx = Signal(Q1, name="fx")
+        st = Signal(lay, name="st")
+        rinit = {"lv": lambda: Lv(rng.choice(lv_vals)), "q": lambda: Fraction(rng.randint(-(1 << (qw - 1)), (1 << (qw - 1)) - 1), 1 << Q1.frac),
+                 "plain": lambda: rng.randint(-2, 1), "struct": lambda: {}}[row_choice]
+        m.submodules.mem = mem = Memory(shape=rshape, depth=mdepth, init=[rinit() for _i in range(mdepth)])
+        dummy = Signal()
+        m.d.comb += dummy.eq(1)
+        rows = [mem.data[i] for i in range(mdepth)]
+        under = [Value.cast(lv), Value.cast(fx), Value.cast(st)] + [Value.cast(r) for r in rows]
+        udescr = [("enum", lv_vals), ("q", Q1.frac), ("layout", lay.size)] + [rdescr] * mdepth
+        sigidx = {id(s): i for i, s in enumerate(under[:3])}
+        for i in range(mdepth):
+            sigidx[("row", id(mem.data), i)] = 3 + i
+        # what is read: (name, kind for the histogram, value-castable or value, lift, may appear in a circuit)
+        reads = [("lv", "signal:signed-enum", lv, ("enum", lv_vals), True), ("fx", "signal:fixed-point", fx, ("q", Q1.frac), True),
+                 ("st", "signal:layout", st, ("layout", lay.size), True)]
+        for n in names:
+            reads.append((f"st.{n}", "field:" + fkinds[n][2], st[n], fkinds[n][1], True))
+        for i, r in enumerate(rows):
+            reads.append((f"mem[{i}]", "row:" + rkind, r, rdescr, False))
+            if row_choice == "struct":
+                for n in names:
+                    reads.append((f"mem[{i}].{n}", "rowfield:" + fkinds[n][2], r[n], fkinds[n][1], False))
+        refs = []
+        for _n, _k, expr, _d, in_circuit in reads:
+            if in_circuit:
+                ref = Signal(Shape.cast(Value.cast(expr).shape()), name="ref")
+                m.d.comb += ref.eq(Value.cast(expr))
+                refs.append(ref)
+            else:
+                refs.append(None)
+        # steps
+        steps = []
+        for _s in range(rng.randint(3, 6)):
+            env = []
+            for u, d in zip(under, udescr):
+                if d[0] == "layout" and rng.random() < 0.7:
+                    raw, off = 0, 0                   # choose the state field by field (mostly members, mostly negative)
+                    for n in names:
+                        fsh = Shape.cast(fkinds[n][0])
+                        raw |= (rand_in(fsh, fkinds[n][1]) & ((1 << fsh.width) - 1)) << off
+                        off += fsh.width
+                    env.append(raw)
+                elif d[0] == "layout":
+                    env.append(rng.getrandbits(d[1]) if d[1] else 0)
+                else:
+                    env.append(rand_in(u.shape(), d))
+            write = None
+            if rng.random() < 0.6:
+                cands = [r for r in reads if r[3][0] in ("enum", "q", "int")]
+                name, kind, target, d, _c = rng.choice(cands)
+                sh = Value.cast(target).shape()
+                if d[0] == "enum":
+                    iv = rng.choice(d[1])
+                    pyv = target.shape()(iv) if hasattr(target.shape(), "__members__") else iv
+                elif d[0] == "q":
+                    iv = rng.randint(-(1 << sh.width), 1 << sh.width) if rng.random() < 0.2 else rand_in(sh, d)
+                    pyv = Fraction(iv, 1 << d[1])
+                else:
+                    iv = rng.randint(-(1 << (sh.width + 1)), 1 << (sh.width + 1))
+                    pyv = iv
+                write = {"name": name, "kind": kind, "target": target, "pyv": pyv, "iv": iv, "lifted": cast_describe(pyv),
+                         "ser": ser_value(target, sigidx)}
+            steps.append({"env": env, "write": write})
+        ctxs = ser_ctx([u.shape() for u in under])
+        out_steps = []
+
+        async def tb(ctx):
+            for stp in steps:
+                o = {"env": stp["env"], "write": None, "reads": []}
+                for u, v in zip(under, stp["env"]):
+                    ctx.set(u, v)
+                w = stp["write"]
+                if w is not None:
+                    o["write"] = {"name": w["name"], "kind": w["kind"], "iv": w["iv"], "lifted": w["lifted"],
+                                  "req": f"(assign {ctxs} {w['ser']} {w['iv']} {ser_env(stp['env'])})"}
+                    try:
+                        ctx.set(w["target"], w["pyv"])
+                        o["write"]["after"] = [ctx.get(u) for u in under]
+                    except Exception as e:
+                        o["write"]["after"] = ("error", errkind(e), repr(e)[:200])
+                for (_n, _k, expr, _d, _c), ref in zip(reads, refs):
+                    try:
+                        got = cast_describe(ctx.get(expr))
+                    except Exception as e:
+                        got = "err:" + errkind(e)
+                    try:
+                        plain = ctx.get(Value.cast(expr))
+                    except Exception as e:
+                        plain = "err:" + errkind(e)
+                    o["reads"].append((got, plain, ctx.get(ref) if ref is not None else None))
+                out_steps.append(o)
+        err = None
+        try:
+            sim = Simulator(m)
+            sim.add_testbench(tb)
+            sim.run()
+        except Exception as e:
+            err = (errkind(e), repr(e)[:200])
+        cases.append({"ctx": ctxs, "error": err, "steps": out_steps,
+                      "shapes": {"Lv": (Shape.cast(Lv).width, lv_vals), "Md": (Shape.cast(Md).width, md_vals), "fx": repr(Q1),
+                                 "struct": [(n, repr(fkinds[n][0]) if n in ("g", "n", "u") else n) for n in names],
+                                 "row": rkind, "depth": mdepth},
+                      "reads": [(n, k, ser_value(e, sigidx), d, (Value.cast(e).shape().width, Value.cast(e).shape().signed))
+                                for n, k, e, d, _c in reads]})
+    return {"seed": seed, "cases": cases}
+
+
+def judge_cast(chk, job):
+    """two rounds with the driver: the state after each write through a value-castable (assign), then every read expression
+    in the state of its step (eval); expected = the shape's from_bits of the Spec's number"""
+    wreqs = [(ci, si, s["write"]["req"]) for ci, c in enumerate(job["cases"]) for si, s in enumerate(c["steps"]) if s["write"]]
+    wresps = dict(((ci, si), r) for (ci, si, _q), r in zip(wreqs, chk.driver.ask([q for _c, _s, q in wreqs])))
+    ereqs, espans = [], []
+    for ci, c in enumerate(job["cases"]):
+        base = {"job_seed": job["seed"], "shapes": c["shapes"], "ctx": c["ctx"]}
+        if c["error"] is not None:
+            chk.violation(f"simulation with value-castable reads raises {c['error'][0]}", dict(base, kind="castable-sim", error=c["error"], classes=[]))
+            espans.append(None)
+            continue
+        states = []
+        for si, s in enumerate(c["steps"]):
+            state = s["env"]
+            w = s["write"]
+            if w is not None:
+                p = parse_assign(wresps[(ci, si)])
+                wbase = dict(base, request=w["req"], target=w["name"], value=w["lifted"], state=s["env"])
+                chk.count(1)
+                chk.hist("castable_writes", w["kind"])
+                if p is None or not p[0]:
+                    chk.not_shown("model rejects a write through a value-castable", dict(wbase, response=wresps[(ci, si)]))
+                elif isinstance(w["after"], tuple):
+                    chk.violation(f"ctx.set({w['name']}, {w['lifted']}) raises {w['after'][1]}", dict(wbase, kind="castable-set-raises", error=w["after"], classes=[]))
+                elif w["after"] != p[1]["spec"]:
+                    chk.violation(f"ctx.set({w['name']}, {w['lifted']}) in state {s['env']} gives {w['after']}, the assignment's bits give {p[1]['spec']}",
+                                  dict(wbase, kind="castable-set", impl=w["after"], spec=p[1]["spec"], classes=[]))
+                else:
+                    if w["after"] != p[1]["tb"]:
+                        chk.not_shown("write through a value-castable: impl = spec but the model of _eval_assign_inner differs", dict(wbase, impl=w["after"], model=p[1]["tb"]))
+                    state = p[1]["spec"]
+            states.append(state)
+        a = len(ereqs)
+        envtxt = " ".join(ser_env(st) for st in states)
+        ereqs += [f"(eval {c['ctx']} {ser} {envtxt})" for _n, _k, ser, _d, _sh in c["reads"]]
+        espans.append((a, len(ereqs), states))
+    eresps = chk.driver.ask(ereqs)
+    for c, span in zip(job["cases"], espans):
+        if span is None:
+            continue
+        a, b, states = span
+        base = {"job_seed": job["seed"], "shapes": c["shapes"], "ctx": c["ctx"]}
+        for ri, ((name, kind, ser, descr, shape), req, resp) in enumerate(zip(c["reads"], ereqs[a:b], eresps[a:b])):
+            parsed = exprs.parse_eval(resp)
+            if parsed is None or not parsed[1] or parsed[0] != tuple(shape):
+                chk.not_shown("driver could not evaluate a value-castable read", dict(base, request=req, response=resp[:200]))
+                continue
+            reported = False
+            for si, (row, s, state) in enumerate(zip(parsed[2], c["steps"], states)):
+                got, plain, circ = s["reads"][ri]
+                v = row["spec"]
+                want = cast_lift(descr, v)
+                chk.count(1)
+                negative = v < 0
+                chk.hist("castable_reads", kind)
+                if descr[0] in ("enum", "q"):
+                    chk.hist("castable_read_value", ("negative" if negative else "non-negative") + (" non-member" if want.startswith("err") else ""))
+                chk.distinct(("cast", c["ctx"], ser, tuple(state)), nontrivial=negative or descr[0] != "int")
+                if reported:
+                    continue
+                rbase = dict(base, request=req, read=name, state=state, written=(s["write"] or {}).get("lifted"))
+                if got != want:
+                    chk.violation(f"ctx.get({name}) [{kind}] in state {state} returns {got}; the circuit holds {v}, whose from_bits is {want}",
+                                  dict(rbase, kind="castable-read", impl=got, spec=want, value=v, classes=[]))
+                    reported = True
+                elif plain != v:
+                    chk.violation(f"ctx.get(Value.cast({name})) in state {state} returns {plain}, exact result is {v}",
+                                  dict(rbase, kind="castable-plain-read", impl=plain, spec=v, classes=[]))
+                    reported = True
+                elif circ is not None and circ != v:
+                    chk.violation(f"a combinational signal assigned {name} holds {circ} in state {state}, exact result is {v}",
+                                  dict(rbase, kind="castable-circuit", impl=circ, spec=v, classes=[]))
+                    reported = True
+                elif cast_lift(descr, row["tb"]) != got:
+                    chk.not_shown("value-castable read: impl = spec but the model of eval_value differs", dict(rbase, impl=got, model=row["tb"]))
+                    reported = True
+                # round trip: what was written through this very value-castable is what is read back
+                w = s["write"]
+                if not reported and w is not None and w["name"] == name and descr[0] in ("enum", "q"):
+                    chk.hist("castable_round_trips", kind)
+                    sh_w, sh_s = shape
+                    fits = (-(1 << (sh_w - 1)) <= w["iv"] < (1 << (sh_w - 1))) if sh_s else (0 <= w["iv"] < (1 << sh_w))
+                    if fits and got != w["lifted"]:
+                        chk.violation(f"ctx.set({name}, {w['lifted']}) then ctx.get({name}) returns {got}",
+                                      dict(rbase, kind="castable-round-trip", impl=got, spec=w["lifted"], classes=[]))
+                        reported = True
+            if not reported and len(chk.cov["samples"]) < 14 and kind.endswith(("signed-enum", "fixed-point")) and ri % 3 == 0:
+                chk.sample({"read": name, "kind": kind, "state": states[0], "returns": c["steps"][0]["reads"][ri][0]}, limit=14)
+
+
 def parse_assign(resp):
     if not resp.startswith("assign "):
         return None
@@ -187,8 +535,15 @@ def write_campaign(chk):
     plan = [(120 if quick else 1600, 40, 4, False), (30 if quick else 300, 40, 3, True)]
     args = ["witness"] + [(rng.getrandbits(48), n, d, al) for jobs, n, d, al in plan for _ in range(jobs)]
     rowargs = [("rows", rng.getrandbits(48), 40, 3) for _ in range(30 if quick else 400)]
+    # (drawn after everything above so that the older streams of a seed stay what they were)
+    castargs = [("cast", rng.getrandbits(48), 10) for _ in range(int(os.environ.get("VERIF_C05_CAST", 32 if quick else 400)))]
+    if os.environ.get("VERIF_C05_ONLY") == "cast":          # development aid: only the value-castable stream
+        args, rowargs = [], []
     with ProcessPoolExecutor(max_workers=min(16, os.cpu_count() or 4)) as ex:
-        for job in ex.map(write_job, args + rowargs, chunksize=2):
+        for job in ex.map(write_job, args + rowargs + castargs, chunksize=2):
+            if job.get("kind") == "cast":
+                judge_cast(chk, job)
+                continue
             for k, v in job["hist"].items():
                 chk.hist("target_kinds", k, v)
             resps = chk.driver.ask([c["req"] for c in job["cases"]])
@@ -237,9 +592,19 @@ def run(chk):
     if not chk.lean():
         chk.not_shown("Lean build of Properties/C05 failed", chk.build_log[-3000:])
         return
-    exprs.campaign(chk, "tb")
+    if os.environ.get("VERIF_C05_ONLY") != "cast":
+        exprs.campaign(chk, "tb")
     write_campaign(chk)
     chk.cov["rule"] += ("; writes: random assignable targets (depth<=4, signal offsets incl. beyond the target, zero-width selectors, "
                         "array elements, as_signed/as_unsigned) x random states x corner values, each run through ctx.set and through a "
-                        "one-shot sync assignment; non-trivial = the write changes the state")
-    chk.assumptions += ["memory rows are written from testbenches only (they cannot be assigned in a circuit); port behaviour is C11's"]
+                        "one-shot sync assignment; non-trivial = the write changes the state"
+                        "; value-castable reads: signals, struct fields, memory rows and fields of struct rows shaped by a signed (and an "
+                        "unsigned) amaranth.lib.enum.Enum, a user-defined signed fixed-point ShapeCastable (from_bits -> Fraction), signed "
+                        "plain shapes and the layout itself; states set through the plain underlying values (55% negative for signed shapes, "
+                        "12% non-members), 60% of the steps with one ctx.set through a value-castable (member / Fraction / int); every "
+                        "ctx.get(castable) compared with the shape's from_bits of the number the Lean Spec gives for Value.cast(castable) in "
+                        "that state (also the plain read, a combinational signal assigned the expression, and the written value read back)")
+    chk.assumptions += ["a memory whose row shape is an enumeration is only built when 0 is a member (MemoryData.Init evaluates "
+                        "shape.const(None) even for a full initialiser)", "reading a non-member value through an enumeration view raises "
+                        "ValueError (Enum.from_bits); this is what the value-castable stream expects for such states",
+                        "memory rows are written from testbenches only (they cannot be assigned in a circuit); port behaviour is C11's"]
